@@ -25,6 +25,11 @@ from .c02 import group, spec_action, det
 
 
 def subgroup(D, name):
+    # "<group>:reversed" / "<group>:rotated": the same group listed in another order (the identity is then not first)
+    if ":" in name:
+        base, order = name.split(":")
+        G = subgroup(D, base)
+        return list(reversed(G)) if order == "reversed" else G[1:] + G[:1]
     G = group(D)
     if name == "B":
         return G
@@ -452,6 +457,14 @@ def run(ctx):
                         if D == 3 and not th and M == 3 and k > 0:
                             continue
                         jobs.append((ctx.repo, D, M, k, p, gname, cut_var, last + 1))
+    # the same groups listed in another order (the family must not depend on where the identity stands in the list)
+    for D in (2, 3) if th else (2,):
+        for gname in ("B:reversed", "B:rotated", "rot:rotated", "C2:reversed"):
+            for M, k in ((3, 0), (3, 1), (2, 1)) + (((3, 2),) if th else ()):
+                for p in (0, 1):
+                    if D == 3 and k > 1:
+                        continue
+                    jobs.append((ctx.repo, D, M, k, p, gname, cut_var, last + 1))
     by = {}
     for job, r in ctx.pairs(worker, jobs):
         cfg = r["cfg"]
